@@ -99,6 +99,7 @@ fn dispatch_inner(prop: &str, ctx: Ctx, replay: Option<&str>) -> i32 {
             crate::run::start_watchdog(std::time::Duration::from_secs(ctx.tier.pick(240, 1800)), None);
             let mut rep = c12::run_pool_level(ctx);
             rep.merge(c13::run_c12_client_level(ctx));
+            rep.merge(c13::run_c12_fresh_process(ctx));
             finish(rep, c12::meta(), ctx.tier, ctx.seed, started)
         }
         "C06" => {
@@ -407,6 +408,7 @@ pub fn miri_main(what: &str) -> i32 {
 pub fn child_main(args: &[String]) -> i32 {
     match args.first().map(|s| s.as_str()) {
         Some("c19") => c19::child(args.get(1).map(|s| s.as_str()).unwrap_or("")),
+        Some("c12-fresh") => c13::child_fresh_burst(args.get(1).and_then(|s| s.parse().ok()).unwrap_or(2)),
         Some("pad-huge") => c04::child_huge(args.get(1).and_then(|s| s.parse().ok()).unwrap_or(1)),
         _ => {
             eprintln!("unknown child command");
